@@ -147,8 +147,8 @@ pub fn run(args: &Args) -> Option<i32> {
     );
     mon.assume("the clause `idempotent + older ⇒ Ok` is asserted only for otherwise well-formed reports and while the clock is not behind the feed's last publication (the quantifier speaks of clock *advances*); clock-set-back cases are checked for the universal clauses only");
     mon.assume("chainlink reports are verified by the repository's mock verifier program");
-    let shards = args.scale(48, 384);
-    let steps = args.scale(4_000, 40_000);
+    let shards = args.scale(48, 192);
+    let steps = args.scale(4_000, 10_000);
     let quiet = hostsvm::QuietStdout::new();
     run_shards(&mut mon, args.threads, shards, |shard, m| {
         let mut rng = Rng::derive(args.seed, shard, 25);
